@@ -17,6 +17,7 @@
 import ast
 
 from sa import core
+from sa import pat
 from sa import pycfg
 from sa import tpl
 from sa.props import C10 as _c10
@@ -75,17 +76,23 @@ def check(model, rep, tier):
             line=er_fn.node.lineno,
             witness='def f(x, *, strict, bias=offset + 1)')
   pos_ok = kw_ok = False
+  prm = er_fn.params()[0]
   for l in loops:
-    it = core.norm(l.iter)
-    if it == 'range(len(args.defaults))':
-      pos_ok = any(isinstance(s, ast.Assign) and core.norm(s.targets[0]) ==
-                   'args.defaults[%s]' % core.norm(l.target) for s in l.body)
-    if it == 'enumerate(args.kw_defaults)':
+    it = tpl.xnorm(er_fn, l.iter, l.iter)
+    if it == 'range(len(%s.args.defaults))' % prm:
+      pos_ok = any(isinstance(s, ast.Assign) and isinstance(
+          s.targets[0], ast.Subscript) and tpl.xnorm(
+              er_fn, s.targets[0].value, s.value) == prm + '.args.defaults' and core.norm(s.targets[0].slice) ==
+                   core.norm(l.target) for s in l.body)
+    if it == 'enumerate(%s.args.kw_defaults)' % prm and isinstance(l.target, ast.Tuple):
+      idx, val = [core.norm(e) for e in l.target.elts]
       for s in l.body:
-        if isinstance(s, ast.If) and core.norm(s.test).endswith('is not None') and \
+        if isinstance(s, ast.If) and core.norm(s.test) == '%s is not None' % val and \
             not s.orelse:
-          kw_ok = any(isinstance(x, ast.Assign) and core.norm(x.targets[0]).startswith(
-              'args.kw_defaults[') for x in s.body)
+          kw_ok = any(isinstance(x, ast.Assign) and isinstance(
+              x.targets[0], ast.Subscript) and tpl.xnorm(
+                  er_fn, x.targets[0].value, x.value) == prm + '.args.kw_defaults' and
+                      core.norm(x.targets[0].slice) == idx for x in s.body)
   rep.check(pos_ok, 'IFACE-ERASE', '%s:positional-defaults' % er_fn.site,
             'every positional default must be overwritten', line=er_fn.node.lineno)
   rep.check(kw_ok, 'IFACE-ERASE', '%s:keyword-only-defaults' % er_fn.site,
@@ -97,14 +104,17 @@ def check(model, rep, tier):
   pname = tf.params()[0]
   insts = [c for c in ast.walk(tf.node) if isinstance(c, ast.Call) and isinstance(
       c.func, ast.Attribute) and c.func.attr == 'instantiate']
-  kw = {k.arg: core.norm(k.value) for c in insts for k in c.keywords}
+  kw = {k.arg: tpl.xnorm(tf, k.value, c) for c in insts for k in c.keywords}
   want = {'globals_': pname + '.__globals__', 'closure': pname + '.__closure__ or ()',
           'defaults': pname + '.__defaults__',
           'kwdefaults': "getattr(%s, '__kwdefaults__', None)" % pname}
   rets = [r for r in ast.walk(tf.node) if isinstance(r, ast.Return)]
   ok = len(insts) == 1 and kw == want and len(rets) == 1 and isinstance(
-      rets[0].value, ast.Tuple) and core.norm(rets[0].value.elts[0]) == \
-      'transformed_fn'
+      rets[0].value, ast.Tuple)
+  if ok:
+    r0 = tpl.expand(tf, rets[0].value.elts[0], rets[0], depth=1)
+    ok = isinstance(r0, ast.Call) and isinstance(r0.func, ast.Attribute) and \
+        r0.func.attr == 'instantiate'
   rep.check(ok, 'IFACE-INST', '%s:per-request-environment' % tf.site,
             'the returned function must come from factory.instantiate() fed '
             'with __globals__, __closure__, __defaults__, __kwdefaults__ of the '
@@ -124,29 +134,12 @@ def check(model, rep, tier):
             {'globals': kw.get('globals')}, line=ft[0].lineno,
             witness='module global rebinding seen by only one side')
   rd = tpl.rdefs(inst.node)
-  cl = rd.reaching(ft[0], 'factory_closure') or []
-  ok = len(cl) == 1 and not isinstance(cl[0], tuple)
-  facts = {}
-  if ok:
-    e = cl[0]
-    comp = e.args[0] if isinstance(e, ast.Call) and core.dotted(e.func) == 'tuple' \
-        and e.args else e
-    ok = isinstance(comp, (ast.GeneratorExp, ast.ListComp)) and \
-        len(comp.generators) == 1
-    if ok:
-      gen = comp.generators[0]
-      src = core.norm(gen.iter)
-      elt = core.norm(comp.elt)
-      facts = {'iterates': src, 'element': elt}
-      cm = rd.reaching(ft[0], 'closure_map') or []
-      cm_ok = len(cm) == 1 and not isinstance(cm[0], tuple) and core.norm(cm[0]) == \
-          'dict(zip(self._freevars, %s))' % p[1]
-      fc = rd.reaching(comp, 'factory_code') or []
-      src_ok = src in ('factory_code.co_freevars', 'factory_freevars')
-      ok = cm_ok and src_ok and elt == 'closure_map[%s]' % core.norm(gen.target) \
-          and not gen.ifs
-      facts['closure_map'] = [core.norm(x) for x in cm if not isinstance(x, tuple)]
-  rep.check(ok and kw.get('closure') == 'factory_closure', 'IFACE-BIND',
+  kwx = {k.arg: tpl.xnorm(inst, k.value, ft[0]) for k in ft[0].keywords}
+  want_cl = ('tuple((dict(zip(self._freevars, %s))[_c0] for _c0 in '
+             'self._unbound_factory.__code__.co_freevars))' % p[1])
+  alt_cl = want_cl.replace('tuple((', 'tuple([').replace('))', '])', 1)
+  facts = {'closure': kwx.get('closure')}
+  rep.check(kwx.get('closure') in (want_cl, alt_cl), 'IFACE-BIND',
             '%s:cells-by-name' % inst.site,
             'closure cells must be looked up by variable name for each free '
             'variable of the factory code (the orders of co_freevars of the '
@@ -155,7 +148,8 @@ def check(model, rep, tier):
   for attr, param in (('__defaults__', p[2]), ('__kwdefaults__', p[3])):
     asg = [n for n in ast.walk(inst.node) if isinstance(n, ast.Assign) and
            isinstance(n.targets[0], ast.Attribute) and n.targets[0].attr == attr]
-    ok = len(asg) == 1 and core.norm(asg[0].value) == param
+    ok = len(asg) == 1 and core.norm(asg[0].value) == param and isinstance(
+        tpl.expand(inst, asg[0].targets[0].value, asg[0], depth=1), ast.Call)
     if ok:
       gd = [x for x in _c10._enclosing_withs(inst.node, asg[0]) if isinstance(x, tuple)]
       ok = gd in ([], [('T', param)], [('T', '%s is not None' % param)])
@@ -167,11 +161,11 @@ def check(model, rep, tier):
   w = {i: 1 for i in range(len(gi.nodes)) if any(
       c is ft[0] for c in pycfg.calls_at(gi, i))}
   rng = gi.count_range(w, skip_labels=())
-  bf = rd.reaching(
-      [c for c in ast.walk(inst.node) if isinstance(c, ast.Call) and
-       core.norm(c.func) == 'bound_factory'][0], 'bound_factory') if any(
-           isinstance(c, ast.Call) and core.norm(c.func) == 'bound_factory'
-           for c in ast.walk(inst.node)) else []
+  calls_bf = [c for c in ast.walk(inst.node) if isinstance(c, ast.Call) and
+              isinstance(c.func, ast.Name) and any(
+                  k.arg is None and core.norm(k.value) == 'self._extra_locals'
+                  for k in c.keywords)]
+  bf = rd.reaching(calls_bf[0], calls_bf[0].func.id) if calls_bf else []
   only_fresh = bool(bf) and all(d is ft[0] for d in bf)
   ss = _c10._self_stores(inst.node)
   rep.check(rng == (1, 1) and only_fresh and not ss, 'IFACE-BIND',
@@ -184,11 +178,11 @@ def check(model, rep, tier):
              'attribute_writes': [core.norm(x) for x in ss]}, line=ft[0].lineno,
             witness='sibling closures created in a loop (one code object, '
             'different cells)')
-  nf = [n for n in ast.walk(inst.node) if isinstance(n, ast.Assign) and
-        core.norm(n.targets[0]) == 'new_fn']
   rets = [r for r in ast.walk(inst.node) if isinstance(r, ast.Return)]
-  ok = len(nf) == 1 and core.norm(nf[0].value) == 'bound_factory(**self._extra_locals)' \
-      and len(rets) == 1 and core.norm(rets[0].value) == 'new_fn'
+  ok = len(rets) == 1 and len(calls_bf) == 1
+  if ok:
+    rv = tpl.expand(inst, rets[0].value, rets[0], depth=1)
+    ok = isinstance(rv, ast.Call) and core.norm(rv) == core.norm(calls_bf[0])
   rep.check(ok, 'IFACE-BIND', '%s:result' % inst.site,
             'instantiate must return the entity produced by calling the bound '
             'inner factory with the extra locals', line=inst.node.lineno)
@@ -224,13 +218,19 @@ def check(model, rep, tier):
             'entity definitions, return entity; outer returns inner', facts,
             line=s.call.lineno)
   kwv = {k: core.norm(v) for k, v in s.kwargs.items()}
-  want = {'entity_defs': 'nodes', 'entity_name': 'entity_name',
-          'dummy_closure_defs': 'dummy_closure_defs', 'factory_args': 'factory_args'}
-  rep.check(all(kwv.get(k) == v for k, v in want.items()), 'IFACE-FACTORY',
+  wp = wf.params(skip_self=False)
+  want = {'entity_defs': wp[0], 'entity_name': wp[1]}
+  okp = all(kwv.get(k) == v for k, v in want.items())
+  # dummy closure definitions: built by a loop over closure_vars
+  dcd = s.kwargs.get('dummy_closure_defs')
+  fa = s.kwargs.get('factory_args')
+  okp = okp and dcd is not None and fa is not None and 'ast.arg(' in tpl.xnorm(
+      wf, fa, s.call) and wp[5] in tpl.xnorm(wf, fa, s.call)
+  rep.check(okp, 'IFACE-FACTORY',
             '%s:placeholders' % wf.site, 'placeholder wiring of the factory '
             'template', {'kwargs': kwv}, line=s.call.lineno)
   dl = [n for n in wf.node.body if isinstance(n, ast.For) and
-        core.norm(n.iter) == 'closure_vars']
+        core.norm(n.iter) == wf.params(skip_self=False)[4]]
   ok = len(dl) == 1 and not any(isinstance(x, (ast.Break, ast.Continue, ast.If))
                                 for x in ast.walk(dl[0]))
   rep.check(ok, 'IFACE-FACTORY', '%s:every-closure-var-declared' % wf.site,
@@ -240,9 +240,11 @@ def check(model, rep, tier):
   cr = model.func(TR, '_PythonFnFactory.create')
   call = [c for c in ast.walk(cr.node) if isinstance(c, ast.Call) and
           core.dotted(c.func) == '_wrap_into_factory']
-  ok = len(call) == 1 and [core.norm(a) for a in call[0].args][:6] == [
-      'nodes', 'self._name', 'inner_factory_name', 'outer_factory_name',
-      'self._freevars', 'self._extra_locals.keys()']
+  ok = len(call) == 1
+  if ok:
+    a = [core.norm(x) for x in call[0].args]
+    ok = a[0] == cr.params()[0] and a[1] == 'self._name' and a[4:6] == [
+        'self._freevars', 'self._extra_locals.keys()']
   rep.check(ok, 'IFACE-FACTORY', '%s:wiring' % cr.site,
             'create() must wrap the nodes with the stored name, free variables '
             'and extra-local names', line=cr.node.lineno)
@@ -293,7 +295,7 @@ def check(model, rep, tier):
       for s in n.orelse:
         if isinstance(s, ast.Expr) and 'decorator_list.append' in core.norm(s):
           appended = core.norm(s)
-  rep.check(cleared == 'fn_scope.level <= 2', 'IFACE-DECOR',
+  rep.check(cleared is not None and cleared.endswith('.level <= 2'), 'IFACE-DECOR',
             '%s:top-level-decorators-dropped' % vf.site,
             'decorators must be dropped exactly for the top-level function '
             '(they were already applied to the original)', {'guard': cleared},
